@@ -158,3 +158,40 @@ func genText(t *rapid.T, label string, maxLen int, specials ...int) []byte {
 	}
 	return out
 }
+
+// genNoisyText draws a text with many distinct n-grams: stretches of
+// pseudo-random bytes over all 256 values (a pure function of one drawn seed)
+// interleaved with copies of earlier stretches, so that matches exist but hash
+// tables of different sizes see different collisions.
+func genNoisyText(t *rapid.T, label string, maxLen int) []byte {
+	if maxLen <= 0 {
+		return nil
+	}
+	n := maxLen - rapid.IntRange(0, maxLen*3/4).Draw(t, label+".short")
+	x := rapid.Uint64().Draw(t, label+".seed")
+	next := func() uint64 {
+		x += 0x9e3779b97f4a7c15
+		z := x
+		z = (z ^ (z >> 30)) * 0xbf58476d1ce4e5b9
+		z = (z ^ (z >> 27)) * 0x94d049bb133111eb
+		return z ^ (z >> 31)
+	}
+	copyEvery := rapid.IntRange(8, 60).Draw(t, label+".copyEvery")
+	out := make([]byte, 0, n)
+	for len(out) < n {
+		r := next()
+		k := 1 + int(r%uint64(copyEvery))
+		for i := 0; i < k && len(out) < n; i++ {
+			out = append(out, byte(next()>>24))
+		}
+		if len(out) > 8 {
+			r = next()
+			src := int(r % uint64(len(out)-3))
+			l := 3 + int((r>>32)%14)
+			for i := 0; i < l && len(out) < n && src+i < len(out); i++ {
+				out = append(out, out[src+i])
+			}
+		}
+	}
+	return out
+}
